@@ -175,6 +175,9 @@ func (g *ctlGen) rules(key string, maxn int) []rule {
 			if (key == "pdr" || key == "cpdr") && g.r.chance(50) {
 				r.ueip = []byte{10, byte(g.r.intn(4)), 0, byte(1 + g.r.intn(250))}
 			}
+			if key != "rpdr" && g.r.chance(30) {
+				r.idLast = true
+			}
 		}
 		if kind == "urr" && (key == "urr" || key == "curr" || key == "uurr") {
 			if key != "uurr" || g.r.chance(50) {
